@@ -40,6 +40,19 @@ Theorem get_length_exact : forall sizes,
 Proof. exact hw_get_length_exact. Qed.
 Print Assumptions get_length_exact.
 
+(* the written image is a function of the topology and of the mapping address only: for any two previous contents of the
+   heap the same blocks are laid out at the same addresses with the same content, each block stored entirely (calloc()ed
+   memory is zero where nothing is stored, whatever the mapping held), and nothing else changes *)
+Theorem image_independent_of_previous_content : forall t base (h h' : heap),
+  model_wf t = true ->
+  let r := dup_run ksize write_allocator t h (write_start base) in
+  let r' := dup_run ksize write_allocator t h' (write_start base) in
+  fst (fst r) = fst (fst r') /\ snd r = snd r' /\
+  (forall a, In a (addrs (fst (fst r))) -> snd (fst r) a = snd (fst r') a /\ exists b, snd (fst r) a = Some b /\ In (a, b) (nodes (fst (fst r)))) /\
+  (forall a, ~ In a (addrs (fst (fst r))) -> snd (fst r) a = h a /\ snd (fst r') a = h' a).
+Proof. exact hw_image_independent. Qed.
+Print Assumptions image_independent_of_previous_content.
+
 (* the C request order (root object and level arrays first) needs the same number of bytes *)
 Theorem length_order_independent : forall s, sum_aligned (c_sizes s) = sum_aligned (sizes ksize (topo_tree s)).
 Proof. exact (hw_c_order_same_total align). Qed.
